@@ -238,7 +238,49 @@ FIXED = [
     ('ul.l${2:m}${1:n}>li.i*2', {'options': {'comment.enabled': True, 'comment.after': '<!-- /[.CLASS] [#ID] -->'}}),
     ('p[title=""]', {'syntax': 'pug'}), ("a[href='' title]+b[t={}]", {'syntax': 'haml'}), ('p[title=""]>a[href=""]', {'syntax': 'slim'}),
     ('p[title=""]+a[href=\'\']', {}), ('input[value="" disabled.]', {'syntax': 'pug'}),
+    # indent syntaxes: the fields of a value that spans several lines are numbered from one base (repaired 411dee1)
+    ('div{a${2}\nb${1}}+p', {'syntax': 'pug'}), ('div{a${2}\nb${1}}+p{${1}}', {'syntax': 'haml'}),
+    ('p{x${3}\n${1}\ny${2}}+a[href]', {'syntax': 'slim'}),
 ]
+
+
+INDENT_TEXTS = ['a${2}\nb${1}', 'x ${1:p} y\n${3}\nz ${2:q}', '${2}${1}', 'one\ntwo ${1}', '${1:a\nb} c\n${2}', 'l1\nl2\nl3',
+                '${3} ${1}\n\n${2}', 't ${1}', 'plain', '\n${2}\n${1}', '${1}\r\n${2}\r${3}']
+
+
+def indent_text_cases(rng, n):
+    """pug/haml/slim: elements whose text spans several lines with explicit fields on different lines, followed
+    by further elements with fields; expected group structure built alongside (one group per value / empty leaf)."""
+    out = []
+    for _ in range(n):
+        groups = []
+
+        def elem(depth):
+            name = rng.choice(['div', 'p', 'span', 'section', 'em'])
+            r = rng.random()
+            if r < 0.6:
+                t = rng.choice(INDENT_TEXTS)
+                f = value_fields(t)
+                if f:
+                    groups.append(f)
+                return '%s{%s}' % (name, t)
+            if r < 0.8 and depth < 2:
+                return '%s>%s' % (name, seq(depth + 1))
+            groups.append([0])
+            return name
+
+        def seq(depth):
+            parts = [elem(depth) for _ in range(rng.randint(1, 3))]
+            s = '+'.join(parts[:-1] + [parts[-1]]) if depth else None
+            if depth:
+                return '(%s)' % s if len(parts) > 1 else s
+            return '+'.join('(%s)' % q if '>' in q else q for q in parts)
+        abbr = seq(0)
+        cfg = fu.rand_base(rng, fu.INDENT_SYNTAXES)
+        cfg = fu.with_options(cfg, {'output.newline': rng.choice(NEWLINES), 'output.indent': rng.choice(['\t', '  ', '']),
+                                    'output.baseIndent': rng.choice(['', '', ' ', '\t\t'])})
+        out.append((abbr, cfg, {'explicit': True, 'groups': groups}))
+    return out
 
 
 def load_corpus():
@@ -293,7 +335,7 @@ def run(ctx):
         'line/column of that offset in the final result (a line ends at each newline string and each line feed); tabstops '
         '1..k in document order with k = empty attribute values + empty leaves counted in the final output; explicit fields: '
         'relative numbering inside a value, index ranges of successive values disjoint and increasing (expected structure '
-        'from the generator AST). The same cases go through the extracted model (event sequences compared). stylesheet: '
+        'from the generator AST; for pug/haml/slim a dedicated stream of elements whose text spans several lines with fields on different lines). The same cases go through the extracted model (event sequences compared). stylesheet: '
         'snippet sums x css/scss/sass/less/sss/stylus x newline/indent/baseIndent/between/after: positions oracle on the '
         'implementation. non-trivial = at least one field callback and three text callbacks; distinct by (abbreviation, config). '
         'stylesheet FORMATTER stream (css_stream): corpus, fixed cases, every built-in snippet key alone, random sums of '
@@ -351,6 +393,9 @@ def run(ctx):
     n = 2500 if ctx.tier == 'quick' else 60000
     for _ in range(n):
         cases.append(make_case(rng))
+    ind = indent_text_cases(rng, 400 if ctx.tier == 'quick' else 6000)
+    cases.extend(ind)
+    ctx.cov['indent_multiline_field_cases'] = len(ind)
     impl = run_cases(ctx, model, cases, 'C13', None, mode='events')
     for (abbr, cfg, meta), r in zip(cases, impl):
         bad = oracle(abbr, cfg, meta, r)
